@@ -810,6 +810,10 @@ def run(tier, seed, replay=None):
         if rec is None:
             ctx.case(case, nontrivial=False)
             continue
+        if case['kind'] != 'psf' and not np.any(np.asarray(rec['inten']) != 0):
+            # every ray of the spot is blocked: no light, no line spread, no MTF (0/0) - outside the domain
+            ctx.count('out-of-domain:geometric-mtf-of-a-fully-blocked-bundle')
+            continue
         (recs_psf if case['kind'] == 'psf' else recs_geo).append(rec)
     # one pass through the driver
     lines, slots = [], []
